@@ -92,10 +92,10 @@ func (st *State) callBuiltin(fr *Frame, bi *ssa.Builtin, args []Value, site ssa.
 		}
 		st.chanTouch(ch)
 		ch.Closed = true
-		if ch.RecvG != nil {
+		if ch.RecvG != 0 {
 			// wake the receiver with zero value
-			g := ch.RecvG
-			ch.RecvG = nil
+			g := st.gByID(ch.RecvG - 1)
+			ch.RecvG = 0
 			st.deliver(g, st.zero(ch.ET), false)
 		}
 		return nil
@@ -245,17 +245,17 @@ func (st *State) execSend(fr *Frame, in *ssa.Send) {
 	}
 	v := st.get(fr, in.X)
 	st.chanTouch(ch)
-	if ch.RecvG != nil {
-		g := ch.RecvG
-		ch.RecvG = nil
+	if ch.RecvG != 0 {
+		g := st.gByID(ch.RecvG - 1)
+		ch.RecvG = 0
 		st.deliver(g, v, true)
 		fr.ip++
 		return
 	}
-	if ch.SendG != nil {
+	if ch.SendG != 0 {
 		panic(st.unsupported("two senders parked on one channel"))
 	}
-	ch.SendG = st.cur
+	ch.SendG = st.cur.id + 1
 	ch.SendVal = v
 	st.cur.status = gParkedSend
 	st.cur.ch = ch
@@ -276,11 +276,11 @@ func (st *State) execRecv(fr *Frame, in *ssa.UnOp, x Value) Value {
 		}
 		return v
 	}
-	if ch.SendG != nil {
+	if ch.SendG != 0 {
 		st.chanTouch(ch)
-		g := ch.SendG
+		g := st.gByID(ch.SendG - 1)
 		v := ch.SendVal
-		ch.SendG, ch.SendVal = nil, nil
+		ch.SendG, ch.SendVal = 0, nil
 		// sender continues after its send instruction
 		sfr := g.frames[len(g.frames)-1]
 		sfr.ip++
@@ -293,10 +293,10 @@ func (st *State) execRecv(fr *Frame, in *ssa.UnOp, x Value) Value {
 	}
 	// park
 	st.chanTouch(ch)
-	if ch.RecvG != nil {
+	if ch.RecvG != 0 {
 		panic(st.unsupported("two receivers parked on one channel"))
 	}
-	ch.RecvG = st.cur
+	ch.RecvG = st.cur.id + 1
 	st.cur.status = gParkedRecv
 	st.cur.ch = ch
 	st.cur.recvReg = fr.info.Reg[in]
